@@ -65,6 +65,11 @@ namespace Model
     runBuildAtom C e ("UUIDColumn" :: rest) t = bUuid t := by
   simp [runBuildAtom]
 
+@[simp] theorem runBuildAtom_EntrezGeneId (C : Ctx) (e : Option String) (rest : List String) (t : Text) :
+    runBuildAtom C e ("EntrezGeneId" :: rest) t =
+      zeroIsNull (runBuildAtom C e rest t) := by
+  simp [runBuildAtom]
+
 @[simp] theorem runBuildAtom_nil (C : Ctx) (e : Option String) (t : Text) :
     runBuildAtom C e [] t = .error .attribute := by
   simp [runBuildAtom]
